@@ -161,6 +161,13 @@ class OrdInterp(TabInterp):
             v = self._deref(st, self.operand(st, t["args"][0]))
             if isinstance(v, Adt) and v.vname in ("Ok", "Err", "Some", "None"):
                 return 1 if {"is_ok": v.vname == "Ok", "is_err": v.vname == "Err", "is_some": v.vname == "Some", "is_none": v.vname == "None"}[c.rsplit("::", 1)[1]] else 0
+        if c == "core::option::Option::<T>::zip":
+            a0 = self._deref(st, self.operand(st, t["args"][0]))
+            a1 = self._deref(st, self.operand(st, t["args"][1]))
+            if isinstance(a0, Adt) and isinstance(a1, Adt) and a0.path == a1.path == "core::option::Option":
+                if a0.vname == "Some" and a1.vname == "Some":
+                    return Adt("core::option::Option", 1, "Some", [Tup([a0.fields[0], a1.fields[0]])])
+                return Adt("core::option::Option", 0, "None", [])
         if WIDEN_RE.fullmatch(c) or c == "core::convert::From::from":
             v = self.operand(st, t["args"][0])
             if isinstance(v, SymV):
